@@ -111,6 +111,7 @@ def deep_huffman_case(Q, rng, dt="u32", many=False):
     1/4096-quantiles so that every value keeps a range of its own, with Fibonacci-like
     counts, plus evenly spread distinct values over the rest of the type."""
     w = lib.UBITS[dt]
+    assert w >= 32, "the construction needs values up to 2^21 below the wide range"
     N = 4096 * Q
     if many:
         rares = [1, 1, 2, 3, 5, 8, 13, 21, 34, 55, 89, 144, 233, 377]
